@@ -1696,20 +1696,15 @@ namespace igris
 
         iterator insert(iterator pos, const_iterator first, const_iterator last)
         {
+            // [first, last) is a range outside this vector, as for
+            // std::vector::insert; it stays valid across reserve().
             size_t _pos = pos - m_data;
-            size_t _first = first - m_data;
-            size_t _last = last - m_data;
 
-            size_t sz = _last - _first;
-            reserve(m_size + sz);
-            m_size += sz;
+            reserve(m_size + (last - first));
+            for (size_t i = _pos; first != last; ++first, ++i)
+                insert(m_data + i, *first);
 
-            iterator first_it = m_data + _pos;
-            iterator last_it = igris::prev((iterator)end(), sz);
-            igris::move_backward(first_it, last_it, (iterator)end());
-            igris::copy(m_data + _first, m_data + _last, first_it);
-
-            return first_it;
+            return m_data + _pos;
         }
 
         iterator insert(int pos, const T &value)
